@@ -42,6 +42,7 @@ import (
 	"go/types"
 	"os"
 	"path/filepath"
+	"sort"
 	"strconv"
 	"strings"
 )
@@ -51,7 +52,17 @@ type k18err struct{ msg string }
 // k18pop marks the end of a nested block inside a flattened statement list
 type k18pop struct{ ast.EmptyStmt }
 
+// k18tail stands for the untranslated remainder of loginAuth
+type k18tail struct {
+	ast.EmptyStmt
+	digest string
+}
+
 type k18fn struct {
+	traced   bool     // threads the event trace `tr` (first parameter after the oracles, first component of the result)
+	parKinds []string // kind of every Go parameter (conn / privkey / client / auth parameters carry no binder)
+	resKinds []string
+	preEvent string   // event the CALLER logs before the call (a callee that reads the connection without a trace)
 	cname   string
 	oracles []string // binder texts "(md5 : list N -> list N)"
 	onames  []string
@@ -86,6 +97,9 @@ type k18 struct {
 	oracles []string
 	onames  []string
 	oset    map[string]bool
+	traced  bool              // the function threads the event trace
+	nenc    int               // number of rsa.EncryptPKCS1v15 calls translated so far (index given to the oracle)
+	cut     int               // >0: only the first cut statements are translated, the rest is the session-server oracle
 	depth   int               // nesting depth of the block being translated (0 = function body)
 	known   map[string]*k18fn // Go name (or Recv.Method) -> generated function of this package
 	structs map[string][]k18field
@@ -205,6 +219,23 @@ func (k *k18) kindOfType(n ast.Expr) (string, int64) {
 		return "conn", 0
 	case "*rsa.PrivateKey":
 		return "privkey", 0
+	case "*Client":
+		return "client", 0
+	case "Auth":
+		return "auth", 0
+	case "cipher.Stream":
+		return "stream", 0
+	case "*Resp":
+		return "resp", 0
+	}
+	if fs, ok := k.structs[text]; ok && len(fs) > 0 {
+		return "struct:" + text, 0
+	}
+	if k.files != nil {
+		if fs := k18structFieldsOpt(k, text); fs != nil {
+			k.structs[text] = fs
+			return "struct:" + text, 0
+		}
 	}
 	if tv, ok := k.info.Types[n]; ok && tv.Type != nil {
 		if l, ok := isByteArrayType(tv.Type); ok {
@@ -491,6 +522,11 @@ func (k *k18) bx(e ast.Expr) string {
 		switch {
 		case (ft == "[]byte" || ft == "string") && len(x.Args) == 1:
 			return k.bx(x.Args[0])
+		case ft == "make" && len(x.Args) == 2 && k.txt(x.Args[0]) == "[]byte":
+			if tv, ok := k.info.Types[x.Args[1]]; !ok || tv.Value == nil {
+				k.fail(e, "make([]byte, n) with a length that is not a constant")
+			}
+			return "(go_make " + k.ix(x.Args[1]) + ")"
 		case ft == "strings.TrimLeft" && len(x.Args) == 2:
 			cut, ok := k.strLit(x.Args[1])
 			if !ok {
@@ -596,6 +632,9 @@ func (k *k18) flush() (string, string) {
 }
 
 func (k *k18) stateTuple(r string) string {
+	if k.traced {
+		return "(tr, " + r + ")"
+	}
 	if !k.stateful {
 		return r
 	}
@@ -620,6 +659,15 @@ func (k *k18) resultEx(e ast.Expr, kind string) string {
 		if k18isIdent(e, "nil") {
 			return "false"
 		}
+		if call, ok := e.(*ast.CallExpr); ok && k.txt(call.Fun) == "rsa.VerifyPKCS1v15" && len(call.Args) == 4 {
+			c, kd, okV := k.varOf(call.Args[0])
+			if !okV || kd != "key" || k.txt(call.Args[1]) != "crypto.SHA256" {
+				k.fail(e, "rsa.VerifyPKCS1v15 is not called as (<key field>, crypto.SHA256, digest, signature)")
+			}
+			k.oracle("PK", "Type")
+			k.oracle("rsa_verify_pk", "PK -> list N -> list N -> bool")
+			return "(negb (rsa_verify_pk " + c + " " + k.bx(call.Args[2]) + " " + k.bx(call.Args[3]) + "))"
+		}
 		if call, ok := e.(*ast.CallExpr); ok {
 			if ft := k.txt(call.Fun); (ft == "fmt.Errorf" || ft == "errors.New") && len(call.Args) >= 1 {
 				if _, ok := k.strLit(call.Args[0]); ok {
@@ -635,6 +683,17 @@ func (k *k18) resultEx(e ast.Expr, kind string) string {
 			return "(@nil N)"
 		}
 		return k.bx(e)
+	case "pktval":
+		return k.px(e)
+	case "stream":
+		return k.sx(e)
+	case "resp":
+		if k18isIdent(e, "nil") {
+			return "None"
+		}
+		if c, kd, ok := k.varOf(e); ok && kd == "resp" {
+			return c
+		}
 	}
 	k.fail(e, "result %s of kind %s is not translated", k.txt(e), kind)
 	return ""
@@ -700,7 +759,14 @@ func (k *k18) stmts(list []ast.Stmt) string {
 	case *k18pop:
 		k.depth--
 		return k.stmts(rest)
+	case *k18tail:
+		// the rest of loginAuth: the request to the session server with ServerID = digest (pinned as text)
+		k.oracle("session_join", "list N -> bool")
+		return "let tr := (tr ++ [EJoin " + x.digest + "]) in\n  Ok (tr, session_join " + x.digest + ")"
 	case *ast.ReturnStmt:
+		if s, ok := k.hsReturn(x); ok {
+			return s
+		}
 		var rs []string
 		if len(x.Results) == 0 {
 			for _, r := range k.results {
@@ -716,7 +782,7 @@ func (k *k18) stmts(list []ast.Stmt) string {
 			// a tail call of a translated function of this package
 			if call, ok := x.Results[0].(*ast.CallExpr); ok && len(x.Results) == 1 {
 				if id, ok := call.Fun.(*ast.Ident); ok {
-					if f := k.known[id.Name]; f != nil && !f.stateful && !k.stateful {
+					if f := k.known[id.Name]; f != nil && !f.stateful && !k.stateful && !f.traced && !k.traced {
 						var as []string
 						for i, on := range f.onames {
 							k.oracle(on, strings.TrimSuffix(strings.SplitN(f.oracles[i], " : ", 2)[1], ")"))
@@ -747,7 +813,9 @@ func (k *k18) stmts(list []ast.Stmt) string {
 		return k.stmts(append(append(append([]ast.Stmt{}, x.List...), &k18pop{}), rest...))
 	case *ast.IfStmt:
 		if x.Init != nil {
-			k.fail(x, "if with an init statement")
+			// if init; cond {..}  =  { init; if cond {..} }
+			plain := &ast.IfStmt{If: x.If, Cond: x.Cond, Body: x.Body, Else: x.Else}
+			return k.stmts(append([]ast.Stmt{&ast.BlockStmt{Lbrace: x.If, List: []ast.Stmt{x.Init, plain}}}, rest...))
 		}
 		c := k.cond(x.Cond)
 		p, cl := k.flush()
@@ -780,6 +848,16 @@ func (k *k18) stmts(list []ast.Stmt) string {
 			k.fail(x, "declaration")
 		}
 		kd, n := k.kindOfType(vs.Type)
+		if strings.HasPrefix(kd, "struct:") {
+			nm := vs.Names[0].Name
+			k.kind[k.coqName(nm)] = kd
+			var b bytes.Buffer
+			for _, f := range k.structs[strings.TrimPrefix(kd, "struct:")] {
+				k.kind[nm+"_"+f.name] = "bytes"
+				fmt.Fprintf(&b, "let %s_%s := (@nil N) in\n  ", nm, f.name)
+			}
+			return b.String() + k.stmts(rest)
+		}
 		if kd == "packet" {
 			nm := vs.Names[0].Name
 			k.kind[k.coqName(nm)] = "packet"
@@ -842,6 +920,9 @@ func (k *k18) lbOf(e ast.Expr) (string, string, bool) {
 }
 
 func (k *k18) exprStmt(x *ast.ExprStmt, rest []ast.Stmt) string {
+	if s, ok := k.hsExprStmt(x, rest); ok {
+		return s
+	}
 	e, wrapped := k.unwrapped(x.X)
 	call, ok := e.(*ast.CallExpr)
 	if !ok {
@@ -926,6 +1007,9 @@ func (k *k18) exprStmt(x *ast.ExprStmt, rest []ast.Stmt) string {
 }
 
 func (k *k18) assign(x *ast.AssignStmt, rest []ast.Stmt) string {
+	if s, ok := k.hsAssign(x, rest); ok {
+		return s
+	}
 	// compound assignment of an integer variable / field
 	if x.Tok != token.DEFINE && x.Tok != token.ASSIGN {
 		if len(x.Lhs) != 1 || len(x.Rhs) != 1 {
@@ -1140,6 +1224,8 @@ func (k *k18) assign(x *ast.AssignStmt, rest []ast.Stmt) string {
 	switch kd {
 	case "bytes":
 		v = k.bx(rhs)
+	case "stream":
+		v = k.sx(rhs)
 	case "bool":
 		v = k.cond(rhs)
 	case "int":
@@ -1180,6 +1266,10 @@ func (k *k18) rhsKind(e ast.Expr) string {
 		switch k.txt(x.Fun) {
 		case "strings.TrimLeft", "hex.EncodeToString", "fmt.Sprintf", "twosComplement", "[]byte", "string":
 			return "bytes"
+		case "make":
+			return "bytes"
+		case "CFB8.NewCFB8Encrypt", "CFB8.NewCFB8Decrypt":
+			return "stream"
 		}
 	case *ast.BinaryExpr:
 		switch x.Op {
@@ -1216,31 +1306,35 @@ func (k *k18) rhsKind(e ast.Expr) string {
 
 type k18spec struct {
 	dir, pkg, recv, name string
+	traced               bool   // threads the event trace
+	preEvent             string // see k18fn
+	cut                  int    // see k18.cut
 }
 
 var k18specs = []k18spec{
-	{"offline", "offline", "", "NameToUUID"},
-	{"bot", "bot", "", "authDigest"},
-	{"server/auth", "auth", "", "authDigest"},
-	{"yggdrasil/user", "user", "lineBreaker", "Write"},
-	{"yggdrasil/user", "user", "lineBreaker", "Close"},
-	{"yggdrasil/user", "user", "", "VerifySignature"},
-	{"yggdrasil/user", "user", "PublicKey", "Verify"},
-	{"server/auth", "auth", "", "encryptionResponse"},
+	{dir: "offline", pkg: "offline", name: "NameToUUID"},
+	{dir: "bot", pkg: "bot", name: "authDigest"},
+	{dir: "server/auth", pkg: "auth", name: "authDigest"},
+	{dir: "yggdrasil/user", pkg: "user", recv: "lineBreaker", name: "Write"},
+	{dir: "yggdrasil/user", pkg: "user", recv: "lineBreaker", name: "Close"},
+	{dir: "yggdrasil/user", pkg: "user", name: "VerifySignature"},
+	{dir: "yggdrasil/user", pkg: "user", recv: "PublicKey", name: "Verify"},
+	{dir: "yggdrasil/user", pkg: "user", recv: "PublicKey", name: "VerifyMessage"},
+	{dir: "server/auth", pkg: "auth", name: "encryptionResponse", preEvent: "EReadResponse"},
+	{dir: "server/auth", pkg: "auth", name: "encryptionRequest", traced: true},
+	{dir: "server/auth", pkg: "auth", name: "Encrypt", traced: true},
+	{dir: "bot", pkg: "bot", name: "newSymmetricEncryption"},
+	{dir: "bot", pkg: "bot", name: "genEncryptionKeyResponse"},
+	{dir: "bot", pkg: "bot", name: "loginAuth", traced: true, cut: 1},
+	{dir: "bot", pkg: "bot", name: "handleEncryptionRequest", traced: true},
 }
 
 // functions and declarations pinned as rendered text only
 type k18textSpec struct{ dir, pkg, recv, name string }
 
 var k18texts = []k18textSpec{
-	{"server/auth", "auth", "", "Encrypt"},
-	{"server/auth", "auth", "", "encryptionRequest"},
-	{"bot", "bot", "", "genEncryptionKeyResponse"},
-	{"bot", "bot", "", "newSymmetricEncryption"},
-	{"bot", "bot", "", "loginAuth"},
 	{"yggdrasil/user", "user", "PublicKey", "WriteTo"},
 	{"yggdrasil/user", "user", "PublicKey", "ReadFrom"},
-	{"yggdrasil/user", "user", "PublicKey", "VerifyMessage"},
 	{"yggdrasil/user", "user", "Property", "WriteTo"},
 	{"yggdrasil/user", "user", "Property", "ReadFrom"},
 }
@@ -1324,7 +1418,7 @@ func genC18(repo string) (out string, err error) {
 		cname += sp.name
 		k := &k18{fset: p.fset, info: p.info, files: p.files, pkg: sp.pkg, fn: sp.name, kind: map[string]string{}, arr: map[string]int64{},
 			goTy: map[string]types.Type{}, fakeCoq: map[string]string{}, fakeKind: map[string]string{}, oset: map[string]bool{}, known: p.known,
-			structs: p.structs, self: cname}
+			structs: p.structs, self: cname, traced: sp.traced, cut: sp.cut}
 		k.t = &trans{fset: p.fset, info: p.info, prefix: sp.pkg, used: map[string]int{}, freeSet: map[string]bool{}, known: map[string]*knownFn{},
 			fnVars: map[string]bool{}, arrSet: map[string]bool{}, slicePar: map[string]bool{}}
 		k.t.push()
@@ -1375,17 +1469,33 @@ func genC18(repo string) (out string, err error) {
 				params = append(params, "("+c+" : "+ty+")")
 			}
 		}
+		var parKinds []string
 		for _, f := range fd.Type.Params.List {
 			kd, n := k.kindOfType(f.Type)
-			if (kd != "bytes" && kd != "conn" && kd != "privkey") || n != 0 {
+			if kd == "packet" {
+				kd = "pktval"
+			}
+			if n != 0 {
 				k.fail(f, "parameter of type %s", k.txt(f.Type))
 			}
 			for _, nm := range f.Names {
-				if kd != "bytes" {
+				parKinds = append(parKinds, kd)
+				switch {
+				case kd == "bytes":
+					params = append(params, "("+k.defVar(nm.Name, "bytes")+" : list N)")
+				case kd == "pktval":
+					params = append(params, "("+k.defVar(nm.Name, "pktval")+" : Z * pdata)")
+				case kd == "conn" || kd == "privkey" || kd == "client" || kd == "auth":
 					k.kind[k.coqName(nm.Name)] = kd // stands for the oracles that use it: no binder
-					continue
+				case strings.HasPrefix(kd, "struct:"):
+					k.kind[k.coqName(nm.Name)] = kd
+					for _, sf := range k.structs[strings.TrimPrefix(kd, "struct:")] {
+						k.kind[nm.Name+"_"+sf.name] = "bytes"
+						params = append(params, "("+nm.Name+"_"+sf.name+" : list N)")
+					}
+				default:
+					k.fail(f, "parameter of type %s", k.txt(f.Type))
 				}
-				params = append(params, "("+k.defVar(nm.Name, "bytes")+" : list N)")
 			}
 		}
 		var inits bytes.Buffer
@@ -1393,7 +1503,13 @@ func genC18(repo string) (out string, err error) {
 		if fd.Type.Results != nil {
 			for _, f := range fd.Type.Results.List {
 				kd, _ := k.kindOfType(f.Type)
-				ty := map[string]string{"bytes": "list N", "int": "Z", "bool": "bool", "err": "bool"}[kd]
+				if kd == "packet" {
+					kd = "pktval"
+				}
+				if kd == "resp" {
+					k.oracle("RESP", "Type")
+				}
+				ty := map[string]string{"bytes": "list N", "int": "Z", "bool": "bool", "err": "bool", "stream": "stream", "pktval": "(Z * pdata)", "resp": "option RESP"}[kd]
 				if ty == "" {
 					k.fail(f, "result of type %s", k.txt(f.Type))
 				}
@@ -1410,15 +1526,47 @@ func genC18(repo string) (out string, err error) {
 					k.results = append(k.results, c)
 					k.resKind = append(k.resKind, kd)
 					rtys = append(rtys, ty)
-					z := map[string]string{"int": "(0)", "bool": "false", "err": "false", "bytes": "(@nil N)"}[kd]
+					z := map[string]string{"int": "(0)", "bool": "false", "err": "false", "bytes": "(@nil N)", "stream": "SNil", "pktval": "((0), PFields [])", "resp": "None"}[kd]
 					fmt.Fprintf(&inits, "let %s := %s in\n  ", c, z)
 				}
 			}
 		}
-		body := inits.String() + k.stmts(fd.Body.List)
+		bodyList := fd.Body.List
+		if k.cut > 0 {
+			// loginAuth: `digest := authDigest(...)`, then the exchange with the session server
+			if len(bodyList) <= k.cut {
+				k.fail(fd, "body shorter than expected")
+			}
+			as, ok := bodyList[k.cut-1].(*ast.AssignStmt)
+			if !ok || len(as.Lhs) != 1 {
+				k.fail(fd, "statement %d is not an assignment", k.cut)
+			}
+			dg := k.txt(as.Lhs[0])
+			uses := 0
+			for _, st := range bodyList[k.cut:] {
+				ast.Inspect(st, func(n ast.Node) bool {
+					if id, ok := n.(*ast.Ident); ok && id.Name == dg {
+						uses++
+					}
+					return true
+				})
+			}
+			restTxt := ""
+			for _, st := range bodyList[k.cut:] {
+				restTxt += k.txt(st) + " "
+			}
+			if uses != 1 || !strings.Contains(restTxt, "ServerID: "+dg+",") || !strings.Contains(restTxt, "sessionserver.mojang.com/session/minecraft/join") {
+				k.fail(fd, "the digest is not sent exactly once as ServerID of the join request")
+			}
+			bodyList = append(append([]ast.Stmt{}, bodyList[:k.cut]...), &k18tail{digest: k.coqName(dg)})
+		}
+		body := inits.String() + k.stmts(bodyList)
 		rty := strings.Join(rtys, " * ")
 		if len(rtys) > 1 {
 			rty = "(" + rty + ")"
+		}
+		if k.traced {
+			rty = "list ev * " + rty
 		}
 		if k.stateful {
 			var fts []string
@@ -1441,6 +1589,9 @@ func genC18(repo string) (out string, err error) {
 		if k.selfRec {
 			binders = append(binders, "(fuel : nat)")
 		}
+		if k.traced {
+			binders = append(binders, "(tr : list ev)")
+		}
 		binders = append(binders, params...)
 		fmt.Fprintf(&defs, "(* %s: func %s *)\n", sp.dir, strings.TrimPrefix(sp.recv+"."+sp.name, "."))
 		if k.selfRec {
@@ -1453,7 +1604,8 @@ func genC18(repo string) (out string, err error) {
 		if sp.recv != "" {
 			key = sp.recv + "." + sp.name
 		}
-		p.known[key] = &k18fn{cname: cname, oracles: k.oracles, onames: k.onames, stateful: k.stateful}
+		p.known[key] = &k18fn{cname: cname, oracles: k.oracles, onames: k.onames, stateful: k.stateful, traced: k.traced, parKinds: parKinds,
+			resKinds: k.resKind, preEvent: sp.preEvent}
 	}
 	// text-only functions and declarations
 	for _, sp := range k18texts {
@@ -1472,6 +1624,22 @@ func genC18(repo string) (out string, err error) {
 		}
 		cname += sp.name
 		fmt.Fprintf(&texts, "(* %s: %s *)\nDefinition %s_text : list string :=\n  %s.\n\n", sp.dir, strings.TrimPrefix(sp.recv+"."+sp.name, "."), cname, k.textOf(fd))
+	}
+	// wire layout: the pk.Tuple of the four codec methods as lists of C06 field types (and values)
+	{
+		p, e := load("yggdrasil/user")
+		if e != nil {
+			return "", e
+		}
+		k := &k18{fset: p.fset, info: p.info, files: p.files, pkg: "user"}
+		for _, m := range []struct{ recv, name string }{{"PublicKey", "WriteTo"}, {"PublicKey", "ReadFrom"}, {"Property", "WriteTo"}, {"Property", "ReadFrom"}} {
+			k.fn = m.recv + "." + m.name
+			fd := findFunc(p.files, m.recv, m.name)
+			if fd == nil || fd.Body == nil {
+				return "", fmt.Errorf("c18: yggdrasil/user: %s not found", k.fn)
+			}
+			defs.WriteString(k.tupleFields(fd, "user_"+m.recv+"_"+m.name, m.name == "WriteTo"))
+		}
 	}
 	// declarations: every package-level var / const / type declaration of yggdrasil/user/validator.go and
 	// pubkey.go, the verifyTokenLen constant of server/auth
@@ -1507,7 +1675,7 @@ func genC18(repo string) (out string, err error) {
 	var b bytes.Buffer
 	b.WriteString("(* GENERATED by tools/gotrans (c18.go) from offline/uuid.go, bot/login.go, server/auth/auth.go, yggdrasil/user - do not edit *)\n")
 	b.WriteString("From Coq Require Import ZArith NArith Bool List String.\n")
-	b.WriteString("From GoMC Require Import Base.Bytes Base.GoInt Gen.Funcs Model.C18 Model.C18_syntax.\n")
+	b.WriteString("From GoMC Require Import Base.Bytes Base.GoInt Gen.Funcs Model.C06 Model.C18 Model.C18_enc Model.C18_syntax.\n")
 	b.WriteString("Import ListNotations.\nLocal Open Scope Z_scope.\nLocal Open Scope bool_scope.\nLocal Open Scope list_scope.\n\n")
 	b.WriteString("(* ---- functions, statement by statement ---- *)\n")
 	b.Write(defs.Bytes())
@@ -1570,4 +1738,496 @@ func emitC18(repo, outdir string) {
 		fmt.Fprintln(os.Stderr, "gotrans:", err)
 		os.Exit(1)
 	}
+}
+
+// ------------------------------------------------------------------ encryption handshake (phase 5)
+//
+// Encrypt / encryptionRequest (server/auth) and handleEncryptionRequest / loginAuth / genEncryptionKeyResponse /
+// newSymmetricEncryption (bot).  What these functions do to the connection and to the outside world is an EVENT
+// appended to a trace `tr` in program order (Model/C18_enc.v: EWrite packet, EReadResponse, ESetCipher enc dec,
+// EAuth name hash, EJoin digest); packets are (id, PFields [FString s; FByteArray b; ...]) when built by
+// pk.Marshal and (id, PRaw data) when received; cipher streams are SEnc key iv / SDec key iv.  Oracles:
+// marshal_pub, rand_read, conn_write (error of a WritePacket as a function of the trace), authentication,
+// parse_pub, is_rsa, rsa_encrypt (with the index of the call), scan_<struct>, session_join.
+
+func k18structFieldsOpt(k *k18, name string) (fs []k18field) {
+	for _, f := range k.files {
+		for _, d := range f.Decls {
+			gd, ok := d.(*ast.GenDecl)
+			if !ok || gd.Tok != token.TYPE {
+				continue
+			}
+			for _, sp := range gd.Specs {
+				ts := sp.(*ast.TypeSpec)
+				st, ok := ts.Type.(*ast.StructType)
+				if ts.Name.Name != name || !ok {
+					continue
+				}
+				for _, fl := range st.Fields.List {
+					t := k.txt(fl.Type)
+					if t != "string" && t != "[]byte" {
+						return nil
+					}
+					for _, nm := range fl.Names {
+						fs = append(fs, k18field{nm.Name, "bytes", 0})
+					}
+				}
+				return fs
+			}
+		}
+	}
+	return nil
+}
+
+// px: a packet value
+func (k *k18) px(e ast.Expr) string {
+	if c, kd, ok := k.varOf(e); ok && kd == "pktval" {
+		return c
+	}
+	call, ok := e.(*ast.CallExpr)
+	if !ok || k.txt(call.Fun) != "pk.Marshal" || len(call.Args) < 1 {
+		k.fail(e, "packet expression %s is not translated", k.txt(e))
+	}
+	sel, ok := call.Args[0].(*ast.SelectorExpr)
+	if !ok || !k18isIdent(sel.X, "packetid") {
+		k.fail(e, "packet id %s", k.txt(call.Args[0]))
+	}
+	var fs []string
+	for _, a := range call.Args[1:] {
+		c, ok := a.(*ast.CallExpr)
+		if !ok || len(c.Args) != 1 {
+			k.fail(a, "packet field %s", k.txt(a))
+		}
+		switch k.txt(c.Fun) {
+		case "pk.String":
+			fs = append(fs, "FString "+k.bx(c.Args[0]))
+		case "pk.ByteArray":
+			fs = append(fs, "FByteArray "+k.bx(c.Args[0]))
+		default:
+			k.fail(a, "packet field %s", k.txt(a))
+		}
+	}
+	return "(" + k.oracle("packetid_"+sel.Sel.Name, "Z") + ", PFields [" + strings.Join(fs, "; ") + "])"
+}
+
+// sx: a cipher stream
+func (k *k18) sx(e ast.Expr) string {
+	if c, kd, ok := k.varOf(e); ok && kd == "stream" {
+		return c
+	}
+	call, ok := e.(*ast.CallExpr)
+	if ok && len(call.Args) == 2 {
+		ctor := map[string]string{"CFB8.NewCFB8Encrypt": "SEnc", "CFB8.NewCFB8Decrypt": "SDec"}[k.txt(call.Fun)]
+		b, kd, okB := k.varOf(call.Args[0])
+		if ctor != "" && okB && kd == "block" {
+			return "(" + ctor + " " + b + " " + k.bx(call.Args[1]) + ")"
+		}
+	}
+	k.fail(e, "stream expression %s is not translated", k.txt(e))
+	return ""
+}
+
+func (k *k18) connOf(e ast.Expr) bool {
+	id, ok := e.(*ast.Ident)
+	return ok && k.kind[k.coqName(id.Name)] == "conn"
+}
+
+// writePacket: <conn>.WritePacket(pkt) -> the event and the error
+func (k *k18) writePacket(e ast.Expr) (string, bool) {
+	call, ok := e.(*ast.CallExpr)
+	if !ok || len(call.Args) != 1 {
+		return "", false
+	}
+	sel, ok := call.Fun.(*ast.SelectorExpr)
+	if !ok || sel.Sel.Name != "WritePacket" || !k.connOf(sel.X) {
+		return "", false
+	}
+	if !k.traced {
+		k.fail(e, "WritePacket in a function that does not thread the trace")
+	}
+	k.oracle("conn_write", "list ev -> bool")
+	return "let tr := (tr ++ [EWrite " + k.px(call.Args[0]) + "]) in\n  ", true
+}
+
+func (k *k18) hsReturn(x *ast.ReturnStmt) (string, bool) {
+	if len(x.Results) == 1 && len(k.resKind) == 1 && k.resKind[0] == "err" {
+		if w, ok := k.writePacket(x.Results[0]); ok {
+			p, cl := k.flush()
+			return p + w + "Ok (tr, conn_write tr)" + cl, true
+		}
+	}
+	return "", false
+}
+
+func (k *k18) hsExprStmt(x *ast.ExprStmt, rest []ast.Stmt) (string, bool) {
+	call, ok := x.X.(*ast.CallExpr)
+	if !ok {
+		return "", false
+	}
+	if k18isIdent(call.Fun, "panic") && len(call.Args) == 1 {
+		if _, kd, ok := k.varOf(call.Args[0]); ok && kd == "err" {
+			return "Panic", true
+		}
+	}
+	if sel, ok := call.Fun.(*ast.SelectorExpr); ok && sel.Sel.Name == "SetCipher" && k.connOf(sel.X) && len(call.Args) == 2 {
+		if !k.traced {
+			k.fail(x, "SetCipher in a function that does not thread the trace")
+		}
+		a, b := k.sx(call.Args[0]), k.sx(call.Args[1])
+		return "let tr := (tr ++ [ESetCipher " + a + " " + b + "]) in\n  " + k.stmts(rest), true
+	}
+	return "", false
+}
+
+// knownCall: a call of a translated function of this package (not a tail call): kbind + result pattern
+func (k *k18) knownCall(x *ast.AssignStmt, call *ast.CallExpr, f *k18fn, rest []ast.Stmt) string {
+	if f.stateful || len(call.Args) != len(f.parKinds) || len(x.Lhs) != len(f.resKinds) {
+		k.fail(x, "call of %s", f.cname)
+	}
+	var as []string
+	for i, on := range f.onames {
+		k.oracle(on, strings.TrimSuffix(strings.SplitN(f.oracles[i], " : ", 2)[1], ")"))
+		as = append(as, on)
+	}
+	if f.traced {
+		if !k.traced {
+			k.fail(x, "call of the traced function %s in a function that does not thread the trace", f.cname)
+		}
+		as = append(as, "tr")
+	}
+	for i, a := range call.Args {
+		switch kd := f.parKinds[i]; {
+		case kd == "bytes":
+			as = append(as, k.bx(a))
+		case kd == "pktval":
+			as = append(as, k.px(a))
+		case kd == "conn" || kd == "privkey" || kd == "client" || kd == "auth":
+			// no binder
+		case strings.HasPrefix(kd, "struct:"):
+			id, ok := a.(*ast.Ident)
+			if !ok || k.kind[k.coqName(id.Name)] != kd {
+				k.fail(a, "argument %s is not a %s variable", k.txt(a), kd)
+			}
+			for _, sf := range k.structs[strings.TrimPrefix(kd, "struct:")] {
+				as = append(as, id.Name+"_"+sf.name)
+			}
+		default:
+			k.fail(a, "argument of kind %s", kd)
+		}
+	}
+	pre := ""
+	if f.preEvent != "" {
+		if !k.traced {
+			k.fail(x, "call of %s in a function that does not thread the trace", f.cname)
+		}
+		pre = "let tr := (tr ++ [" + f.preEvent + "]) in\n  "
+	}
+	ns := k.lhsNames(x, f.resKinds)
+	for i, kd := range f.resKinds {
+		if kd == "resp" {
+			k.oracle("RESP", "Type")
+		}
+		_ = i
+	}
+	pat := ns[0]
+	if len(ns) > 1 {
+		pat = "(" + strings.Join(ns, ", ") + ")"
+	}
+	if f.traced {
+		pat = "(tr, " + pat + ")"
+	}
+	bind := "let " + pat + " := r in"
+	if strings.HasPrefix(pat, "(") {
+		bind = "let '" + pat + " := r in"
+	}
+	p, cl := k.flush()
+	return p + pre + fmt.Sprintf("kbind (%s %s) (fun r => %s\n  ", f.cname, strings.Join(as, " "), bind) + k.stmts(rest) + ")" + cl
+}
+
+func (k *k18) hsAssign(x *ast.AssignStmt, rest []ast.Stmt) (string, bool) {
+	if len(x.Rhs) != 1 || (x.Tok != token.DEFINE && x.Tok != token.ASSIGN) {
+		return "", false
+	}
+	rhs := x.Rhs[0]
+	// rsaKey := iPK.( *rsa.PublicKey): panics on a nil interface and on another key type
+	if ta, ok := rhs.(*ast.TypeAssertExpr); ok && len(x.Lhs) == 1 {
+		c, kd, okV := k.varOf(ta.X)
+		id, okI := x.Lhs[0].(*ast.Ident)
+		if !okV || kd != "pubopt" || !okI || k.txt(ta.Type) != "*rsa.PublicKey" {
+			k.fail(x, "type assertion %s", k.txt(rhs))
+		}
+		k.oracle("is_rsa", "PUB -> bool")
+		nm := k.coqName(id.Name)
+		k.kind[nm] = "pub"
+		return fmt.Sprintf("kassert_rsa is_rsa %s (fun %s =>\n  ", c, nm) + k.stmts(rest) + ")", true
+	}
+	call, ok := rhs.(*ast.CallExpr)
+	if !ok {
+		return "", false
+	}
+	ft := k.txt(call.Fun)
+	// err = <conn>.WritePacket(pkt)
+	if w, ok := k.writePacket(rhs); ok && len(x.Lhs) == 1 {
+		ns := k.lhsNames(x, []string{"err"})
+		p, cl := k.flush()
+		return p + w + fmt.Sprintf("let %s := conn_write tr in\n  ", ns[0]) + k.stmts(rest) + cl, true
+	}
+	if id, ok := call.Fun.(*ast.Ident); ok {
+		if f := k.known[id.Name]; f != nil {
+			return k.knownCall(x, call, f, rest), true
+		}
+	}
+	switch {
+	case ft == "x509.MarshalPKIXPublicKey" && len(call.Args) == 1 && len(x.Lhs) == 2:
+		u, ok := call.Args[0].(*ast.UnaryExpr)
+		if !ok || u.Op != token.AND {
+			return "", false
+		}
+		sel, ok := u.X.(*ast.SelectorExpr)
+		if !ok || sel.Sel.Name != "PublicKey" {
+			return "", false
+		}
+		if id, ok := sel.X.(*ast.Ident); !ok || k.kind[k.coqName(id.Name)] != "privkey" {
+			k.fail(x, "x509.MarshalPKIXPublicKey is not applied to the public half of the private-key parameter")
+		}
+		k.oracle("marshal_pub", "option (list N)")
+		ns := k.lhsNames(x, []string{"bytes", "err"})
+		return fmt.Sprintf("let '(%s, %s) := match marshal_pub with Some d => (d, false) | None => (@nil N, true) end in\n  ", ns[0], ns[1]) + k.stmts(rest), true
+	case ft == "rand.Read" && len(call.Args) == 1 && len(x.Lhs) == 2:
+		c, kd, ok := k.varOf(call.Args[0])
+		if !ok || kd != "bytes" || !k18isIdent(x.Lhs[0], "_") {
+			k.fail(x, "rand.Read is not called as _, err := rand.Read(<byte slice variable>)")
+		}
+		k.oracle("rand_read", "Z -> option (list N)")
+		ns := k.lhsNames(x, []string{"int", "err"})
+		return fmt.Sprintf("let '(%s, %s) := match rand_read (lenZ %s) with Some r => (r, false) | None => (%s, true) end in\n  ", c, ns[1], c, c) + k.stmts(rest), true
+	case ft == "aes.NewCipher" && len(call.Args) == 1 && len(x.Lhs) == 2:
+		key := k.bx(call.Args[0])
+		ns := k.lhsNames(x, []string{"block", "err"})
+		p, cl := k.flush()
+		return p + fmt.Sprintf("let %s := %s in\n  let %s := negb (go_aes_key_ok %s) in\n  ", ns[0], key, ns[1], ns[0]) + k.stmts(rest) + cl, true
+	case ft == "authentication" && len(call.Args) == 2 && len(x.Lhs) == 2:
+		if fd := findFunc(k.files, "", "authentication"); fd == nil || !k.traced {
+			k.fail(x, "authentication is not a function of this package")
+		}
+		a, b := k.bx(call.Args[0]), k.bx(call.Args[1])
+		k.oracle("RESP", "Type")
+		k.oracle("authentication", "list N -> list N -> option RESP")
+		ns := k.lhsNames(x, []string{"resp", "err"})
+		p, cl := k.flush()
+		return p + fmt.Sprintf("let tr := (tr ++ [EAuth %s %s]) in\n  let '(%s, %s) := match authentication %s %s with Some r => (Some r, false) | None => (None, true) end in\n  ",
+			a, b, ns[0], ns[1], a, b) + k.stmts(rest) + cl, true
+	case ft == "x509.ParsePKIXPublicKey" && len(call.Args) == 1 && len(x.Lhs) == 2:
+		a := k.bx(call.Args[0])
+		k.oracle("PUB", "Type")
+		k.oracle("parse_pub", "list N -> option PUB")
+		ns := k.lhsNames(x, []string{"pubopt", "err"})
+		p, cl := k.flush()
+		return p + fmt.Sprintf("let '(%s, %s) := match parse_pub %s with Some pk => (Some pk, false) | None => (None, true) end in\n  ", ns[0], ns[1], a) + k.stmts(rest) + cl, true
+	case ft == "rsa.EncryptPKCS1v15" && len(call.Args) == 3 && len(x.Lhs) == 2:
+		c, kd, ok := k.varOf(call.Args[1])
+		if k.txt(call.Args[0]) != "rand.Reader" || !ok || kd != "pub" {
+			k.fail(x, "rsa.EncryptPKCS1v15 is not called as (rand.Reader, <RSA public key>, message)")
+		}
+		m := k.bx(call.Args[2])
+		k.oracle("PUB", "Type")
+		k.oracle("rsa_encrypt", "Z -> PUB -> list N -> option (list N)")
+		idx := k.nenc
+		k.nenc++
+		ns := k.lhsNames(x, []string{"bytes", "err"})
+		p, cl := k.flush()
+		return p + fmt.Sprintf("let '(%s, %s) := match rsa_encrypt (%d) %s %s with Some ct => (ct, false) | None => (@nil N, true) end in\n  ", ns[0], ns[1], idx, c, m) + k.stmts(rest) + cl, true
+	case ft == "fmt.Errorf" && len(x.Lhs) == 1 && x.Tok == token.ASSIGN:
+		if c, kd, ok := k.varOf(x.Lhs[0]); ok && kd == "err" {
+			return fmt.Sprintf("let %s := true in\n  ", c) + k.stmts(rest), true
+		}
+	}
+	// err := p.Scan(&er): a received packet scanned into a struct of byte-string fields
+	if sel, ok := call.Fun.(*ast.SelectorExpr); ok && sel.Sel.Name == "Scan" && len(call.Args) == 1 && len(x.Lhs) == 1 {
+		pv, kd, okP := k.varOf(sel.X)
+		u, okU := call.Args[0].(*ast.UnaryExpr)
+		if okP && kd == "pktval" && okU && u.Op == token.AND {
+			id, okI := u.X.(*ast.Ident)
+			if !okI || !strings.HasPrefix(k.kind[k.coqName(id.Name)], "struct:") {
+				k.fail(x, "Scan argument %s", k.txt(call.Args[0]))
+			}
+			tn := strings.TrimPrefix(k.kind[k.coqName(id.Name)], "struct:")
+			var fs, tys, fresh []string
+			for i, sf := range k.structs[tn] {
+				fs = append(fs, id.Name+"_"+sf.name)
+				tys = append(tys, "list N")
+				fresh = append(fresh, fmt.Sprintf("f%d", i))
+			}
+			k.oracle("scan_"+tn, "pdata -> option ("+strings.Join(tys, " * ")+")")
+			ns := k.lhsNames(x, []string{"err"})
+			return fmt.Sprintf("let '(%s, %s) := match scan_%s (snd %s) with Some (%s) => (%s, false) | None => (%s, true) end in\n  ",
+				strings.Join(fs, ", "), ns[0], tn, pv, strings.Join(fresh, ", "), strings.Join(fresh, ", "), strings.Join(fs, ", ")) + k.stmts(rest), true
+		}
+	}
+	return "", false
+}
+
+// ------------------------------------------------------------------ pk.Tuple field lists (phase 5)
+//
+// PublicKey.WriteTo / ReadFrom and Property.WriteTo / ReadFrom each contain exactly one composite literal
+// pk.Tuple{...} whose WriteTo(w) / ReadFrom(r) does the I/O.  Its elements, in order, become a list over the field
+// types of Model/C06.v: for a writer (type, value) pairs over the receiver's fields (p.X -> p_X; p.ExpiresAt.UnixMilli()
+// -> p_ExpiresAt_ms; a local -> v_<local>), for a reader (type, name of the destination variable).  The statements
+// around the tuple stay pinned as text.
+
+func (k *k18) tupleFields(fd *ast.FuncDecl, cname string, writer bool) string {
+	var lits []*ast.CompositeLit
+	ast.Inspect(fd.Body, func(n ast.Node) bool {
+		if cl, ok := n.(*ast.CompositeLit); ok && k.txt(cl.Type) == "pk.Tuple" {
+			lits = append(lits, cl)
+		}
+		return true
+	})
+	if len(lits) != 1 {
+		k.fail(fd, "expected exactly one pk.Tuple literal, found %d", len(lits))
+	}
+	// the literal must be the receiver of the I/O call
+	want := "WriteTo(w)"
+	if !writer {
+		want = "ReadFrom(r)"
+	}
+	found := false
+	ast.Inspect(fd.Body, func(n ast.Node) bool {
+		if call, ok := n.(*ast.CallExpr); ok {
+			if sel, ok := call.Fun.(*ast.SelectorExpr); ok && sel.X == ast.Expr(lits[0]) {
+				if sel.Sel.Name+"("+k.txtArgs(call.Args)+")" == want {
+					found = true
+				}
+			}
+		}
+		return true
+	})
+	if !found {
+		k.fail(fd, "the pk.Tuple literal is not used as pk.Tuple{...}.%s", want)
+	}
+	recv := fd.Recv.List[0].Names[0].Name
+	// declared types of locals (var x T / var ( ... ))
+	decl := map[string]string{}
+	ast.Inspect(fd.Body, func(n ast.Node) bool {
+		if vs, ok := n.(*ast.ValueSpec); ok && vs.Type != nil {
+			for _, nm := range vs.Names {
+				decl[nm.Name] = k.txt(vs.Type)
+			}
+		}
+		return true
+	})
+	fty := func(n ast.Node, t string) string {
+		switch t {
+		case "pk.Long":
+			return "TLong"
+		case "pk.ByteArray":
+			return "TByteArray"
+		case "pk.String":
+			return "TString"
+		case "pk.Option[pk.String, *pk.String]":
+			return "(TOption TString)"
+		}
+		k.fail(n, "field type %s is not translated", t)
+		return ""
+	}
+	val := func(e ast.Expr) string { // a byte-string operand of a writer
+		if sel, ok := e.(*ast.SelectorExpr); ok && k18isIdent(sel.X, recv) {
+			return recv + "_" + sel.Sel.Name
+		}
+		if id, ok := e.(*ast.Ident); ok {
+			return "v_" + id.Name
+		}
+		k.fail(e, "operand %s", k.txt(e))
+		return ""
+	}
+	var items, params []string
+	seen := map[string]bool{}
+	addP := func(p, ty string) {
+		if !seen[p] {
+			seen[p] = true
+			params = append(params, "("+p+" : "+ty+")")
+		}
+	}
+	for _, el := range lits[0].Elts {
+		if writer {
+			switch x := el.(type) {
+			case *ast.CallExpr:
+				if len(x.Args) != 1 {
+					k.fail(el, "tuple element %s", k.txt(el))
+				}
+				t := fty(el, k.txt(x.Fun))
+				if t == "TLong" {
+					if k.txt(x.Args[0]) != recv+".ExpiresAt.UnixMilli()" {
+						k.fail(el, "tuple element %s", k.txt(el))
+					}
+					addP(recv+"_ExpiresAt_ms", "Z")
+					items = append(items, "(TLong, VZ "+recv+"_ExpiresAt_ms)")
+				} else {
+					v := val(x.Args[0])
+					addP(v, "list N")
+					items = append(items, "("+t+", VBytes "+v+" [])")
+				}
+			case *ast.CompositeLit:
+				t := fty(el, k.txt(x.Type))
+				if len(x.Elts) != 2 {
+					k.fail(el, "option literal %s", k.txt(el))
+				}
+				has, okH := x.Elts[0].(*ast.KeyValueExpr)
+				vl, okV := x.Elts[1].(*ast.KeyValueExpr)
+				if !okH || !okV || k.txt(has.Key) != "Has" || k.txt(vl.Key) != "Val" {
+					k.fail(el, "option literal %s", k.txt(el))
+				}
+				vc, okC := vl.Value.(*ast.CallExpr)
+				if !okC || k.txt(vc.Fun) != "pk.String" || len(vc.Args) != 1 {
+					k.fail(el, "option value %s", k.txt(vl.Value))
+				}
+				v := val(vc.Args[0])
+				if k.txt(has.Value) != k.txt(vc.Args[0])+" != \"\"" {
+					k.fail(el, "option presence %s is not `<value> != \"\"`", k.txt(has.Value))
+				}
+				addP(v, "list N")
+				items = append(items, "("+t+", VOpt (negb (bytes_eqb "+v+" [])) (VBytes "+v+" []))")
+			default:
+				k.fail(el, "tuple element %s", k.txt(el))
+			}
+			continue
+		}
+		// reader: &Local with a declared type, or ( *pk.T)(&p.Field)
+		switch x := el.(type) {
+		case *ast.UnaryExpr:
+			id, ok := x.X.(*ast.Ident)
+			if x.Op != token.AND || !ok || decl[id.Name] == "" {
+				k.fail(el, "tuple element %s", k.txt(el))
+			}
+			items = append(items, "("+fty(el, decl[id.Name])+", "+k18q(id.Name)+")")
+		case *ast.CallExpr:
+			par, okP := x.Fun.(*ast.ParenExpr)
+			if !okP || len(x.Args) != 1 {
+				k.fail(el, "tuple element %s", k.txt(el))
+			}
+			st, okS := par.X.(*ast.StarExpr)
+			u, okU := x.Args[0].(*ast.UnaryExpr)
+			if !okS || !okU || u.Op != token.AND {
+				k.fail(el, "tuple element %s", k.txt(el))
+			}
+			items = append(items, "("+fty(el, k.txt(st.X))+", "+k18q(k.txt(u.X))+")")
+		default:
+			k.fail(el, "tuple element %s", k.txt(el))
+		}
+	}
+	sort.Strings(params) // canonical parameter order (by name): the ORDER of the elements is in the list only
+	if writer {
+		return fmt.Sprintf("(* yggdrasil/user: %s: the elements of its pk.Tuple, in order *)\nDefinition %s_fields %s : list (fty * fval) :=\n  [%s].\n\n",
+			k.fn, cname, strings.Join(params, " "), strings.Join(items, ";\n   "))
+	}
+	return fmt.Sprintf("(* yggdrasil/user: %s: the elements of its pk.Tuple, in order, with the variable each is read into *)\nDefinition %s_fields : list (fty * String.string) :=\n  [%s]%%string.\n\n",
+		k.fn, cname, strings.Join(items, ";\n   "))
+}
+
+func (k *k18) txtArgs(as []ast.Expr) string {
+	var ts []string
+	for _, a := range as {
+		ts = append(ts, k.txt(a))
+	}
+	return strings.Join(ts, ", ")
 }
